@@ -173,7 +173,7 @@ fn session(
         Ok((len, _)) => len,
         Err(e) => {
             log.ev(json!({"e": "error", "who": "requester.poll", "what": sync_err(&e)}));
-            log.ev(json!({"e": "close", "inseg_ok": false, "straddled": false}));
+            log.ev(json!({"e": "close", "inseg_ok": false, "straddled": false, "resp_cache": []}));
             out.fatal = true;
             return out;
         }
@@ -190,13 +190,13 @@ fn session(
     };
     let cache: Vec<u64> = req.req_cache.heads().iter().map(|h| exp.by_id.get(&h.id).map(|&i| i as u64 + 1).unwrap_or(0)).collect();
     log.ev(json!({"e": "sample", "req": req.name, "resp": resp.name, "sid": (sid & 0xffff) as u64, "sample": sample,
-                  "heads": heads, "head_ix": head_ix, "oneshot": oneshot, "cache": cache}));
+                  "heads": heads, "head_ix": head_ix, "oneshot": oneshot, "cache": cache, "push": false}));
     let mut responder = SyncResponder::new();
     match SyncIncoming::decode(&buf[..len]) {
         Ok(SyncIncoming::Poll(p)) => {
             if let Err(e) = responder.receive(p) {
                 log.ev(json!({"e": "error", "who": "responder.receive", "what": sync_err(&e)}));
-                log.ev(json!({"e": "close", "inseg_ok": false, "straddled": false}));
+                log.ev(json!({"e": "close", "inseg_ok": false, "straddled": false, "resp_cache": []}));
                 out.fatal = true;
                 return out;
             }
@@ -272,8 +272,109 @@ fn session(
     } else {
         (true, false)
     };
-    log.ev(json!({"e": "close", "inseg_ok": inseg_ok, "straddled": straddled}));
+    let rc = cache_ix(exp, &resp.resp_cache);
+    log.ev(json!({"e": "close", "inseg_ok": inseg_ok, "straddled": straddled, "resp_cache": rc}));
     out
+}
+
+fn cache_ix(exp: &Expanded, c: &PeerCache) -> Vec<u64> {
+    c.heads().iter().map(|h| exp.by_id.get(&h.id).map(|&i| i as u64 + 1).unwrap_or(0)).collect()
+}
+
+/// One subscribe + push exchange as in aranya-tcp-syncer: `req` subscribes (its sample travels in the
+/// Subscribe message), `resp` records the sample in its cache for the peer (`update_heads`), starts
+/// a session from that cache (`start_session`) and pushes one message; `req` ingests it with
+/// `receive_push`, commits and updates its own cache.
+fn push_exchange(exp: &Expanded, req: &mut Peer, resp: &mut Peer, sid: u128, log: &mut Log) -> Result<(), ()> {
+    let graph = exp.graph;
+    let mut rq = SyncRequester::new(graph, FixedRng(sid));
+    let mut buf = vec![0u8; MAX_SYNC_MESSAGE_SIZE];
+    let head_ix: Vec<u64> = req.rep.head_ids().map(|h| h.iter().map(|id| exp.by_id.get(id).map(|&i| i as u64 + 1).unwrap_or(0)).collect()).unwrap_or_default();
+    let n = {
+        let Replica { client, bufs, .. } = &mut req.rep;
+        match rq.subscribe(&mut buf, client.provider(), &req.req_cache.session_heads(), 60, 1 << 20, &mut bufs.traversal.primary) {
+            Ok(n) => n,
+            Err(e) => {
+                log.ev(json!({"e": "error", "who": "requester.subscribe", "what": sync_err(&e)}));
+                return Err(());
+            }
+        }
+    };
+    let sample: Vec<u64> = match dec::<MSyncType>(&buf[..n]) {
+        Ok((MSyncType::Subscribe { commands, .. }, _)) => commands.iter().map(|a| match exp.by_id.get(&a.id) {
+            Some(&i) if exp.cmds[i].addr == *a => i as u64 + 1,
+            _ => 0,
+        }).collect(),
+        other => vrt::die(&format!("subscribe did not write a Subscribe message: {other:?}")),
+    };
+    log.ev(json!({"e": "sample", "req": req.name, "resp": resp.name, "sid": (sid & 0xffff) as u64, "sample": sample,
+                  "heads": head_ix.len(), "head_ix": head_ix, "oneshot": true, "cache": cache_ix(exp, &req.req_cache), "push": true}));
+    let fail = |log: &mut Log, who: &str, what: String| {
+        log.ev(json!({"e": "error", "who": who, "what": what}));
+        Err(())
+    };
+    match SyncIncoming::decode(&buf[..n]) {
+        Ok(SyncIncoming::Subscribe(sub)) => {
+            let Replica { client, bufs, .. } = &mut resp.rep;
+            if let Err(e) = client.update_heads(sub.graph_id(), sub.heads().iter(), &mut resp.resp_cache, &mut bufs.traversal.primary) {
+                return fail(log, "update_heads", err_class(&e));
+            }
+        }
+        _ => vrt::die("a real subscribe message did not decode as Subscribe"),
+    }
+    let mut responder = SyncResponder::new();
+    let psid = sid ^ 0x5050;
+    if let Err(e) = responder.start_session(psid, graph, 0, resp.resp_cache.heads().iter().map(|h| h.address())) {
+        return fail(log, "responder.start_session", sync_err(&e));
+    }
+    let mut target = vec![0u8; MAX_SYNC_MESSAGE_SIZE];
+    let len = {
+        let Replica { client, bufs, .. } = &mut resp.rep;
+        match responder.push(&mut target, client.provider(), &mut bufs.traversal) {
+            Ok(n) => n,
+            Err(e) => return fail(log, "responder.push", sync_err(&e)),
+        }
+    };
+    let mut received: Vec<Address> = vec![];
+    if len > 0 {
+        let index = match dec::<MSyncType>(&target[..len]) {
+            Ok((MSyncType::Push { message: MResponse::SyncResponse { response_index, session_id, .. }, graph_id }, _)) if session_id == psid && graph_id == graph => response_index as i64,
+            other => return fail(log, "responder.push", format!("unexpected message {:?}", other.map(|o| o.0))),
+        };
+        match SyncIncoming::decode(&target[..len]) {
+            Ok(SyncIncoming::Push(p)) => {
+                let mut r2 = SyncRequester::new_session_id(p.graph_id(), p.session_id());
+                match r2.receive_push(p) {
+                    Ok(Some(cmds)) => {
+                        let ids = map_cmds(exp, cmds.iter());
+                        let mut trx = req.rep.client.transaction(graph);
+                        let Replica { client, bufs, .. } = &mut req.rep;
+                        let added = client.add_commands(&mut trx, &mut Null, &cmds, bufs, MemSpill::new);
+                        let (add, cnt) = match &added {
+                            Ok(n) => ("ok".to_string(), *n),
+                            Err(e) => (err_class(e), 0),
+                        };
+                        log.ev(json!({"e": "response", "index": index, "cmds": ids, "add": add, "added": cnt, "retries": 0}));
+                        received.extend(cmds.iter().filter_map(|c| c.address().ok()));
+                        if added.is_err() {
+                            log.ev(json!({"e": "close", "inseg_ok": false, "straddled": false, "resp_cache": cache_ix(exp, &resp.resp_cache)}));
+                            return Err(());
+                        }
+                        log.ev(json!({"e": "close", "inseg_ok": true, "straddled": false, "resp_cache": cache_ix(exp, &resp.resp_cache)}));
+                        if !commit(exp, req, trx, received, log) {
+                            return Err(());
+                        }
+                        return Ok(());
+                    }
+                    Ok(None) => {}
+                    Err(e) => return fail(log, "requester.receive_push", sync_err(&e)),
+                }
+            }
+            _ => return fail(log, "decode", "a push did not decode as Push".into()),
+        }
+    }
+    log.ev(json!({"e": "close", "inseg_ok": true, "straddled": false, "resp_cache": cache_ix(exp, &resp.resp_cache)}));
+    Ok(())
 }
 
 /// Storage-level observations about a session that delivered only duplicates (used by Trace_Sync
@@ -445,6 +546,8 @@ pub fn run(args: &Args) {
             _ => Bufs::Max,
         };
         let pingpong = b.get("pingpong").and_then(Value::as_bool).unwrap_or(false);
+        let push = b.get("push").and_then(Value::as_bool).unwrap_or(false);
+        let deep = b.get("deep").and_then(Value::as_bool).unwrap_or(false);
         let lay_a = Layout::parse(b.get("layA"), args.seed ^ 0xa);
         let lay_b = Layout::parse(b.get("layB"), args.seed ^ 0xb);
         let built = vrt::catch_any(|| -> Result<(Replica, Replica), String> {
@@ -464,12 +567,16 @@ pub fn run(args: &Args) {
         let par: Vec<Vec<u64>> = exp.cmds.iter().map(|c| c.parents.iter().map(|&p| p as u64 + 1).collect()).collect();
         let to_idx = |s: &BTreeSet<usize>| -> Vec<u64> { exp.reals_of(s).iter().map(|&x| x as u64 + 1).collect() };
         log.ev(json!({"e": "reset", "n": exp.cmds.len(), "par": par, "A": to_idx(&a_nodes), "B": to_idx(&b_nodes),
-                      "pattern": pattern, "lim": {"sample": 100, "resp": 100}}));
+                      "pattern": pattern, "deep": deep, "lim": {"sample": 100, "resp": 100}}));
         let mut pa = Peer { name: "A", rep: ra, req_cache: PeerCache::new(), resp_cache: PeerCache::new() };
         let mut pb = Peer { name: "B", rep: rb, req_cache: PeerCache::new(), resp_cache: PeerCache::new() };
         let mut rng = Rng::new(args.seed ^ salt ^ 0x5e55);
         let mut sid: u128 = 0x1000 + (i as u128) * 0x100;
         let res = vrt::catch_any(|| -> Result<usize, ()> {
+            if push {
+                sid += 1;
+                push_exchange(&exp, &mut pa, &mut pb, sid, &mut log)?;
+            }
             let (s0, _) = sync_until(&exp, &mut pa, &mut pb, &pattern, plan, &mut sid, &mut rng, &mut log)?;
             let mut total = s0;
             if pingpong {
@@ -497,7 +604,7 @@ pub fn run(args: &Args) {
             Ok(Err(())) => -1,
             Err(p) => {
                 log.ev(json!({"e": "error", "who": "panic", "what": p}));
-                log.ev(json!({"e": "close", "inseg_ok": false, "straddled": false}));
+                log.ev(json!({"e": "close", "inseg_ok": false, "straddled": false, "resp_cache": []}));
                 -2
             }
         };
